@@ -166,9 +166,9 @@ private:
         A0,A1,A2,A3,A4>                             library_sm;
 
     typedef ::boost::function<
-        execute_return ()>                          transition_fct;
+        execute_return (library_sm*)>               transition_fct;
     typedef ::boost::function<
-        execute_return () >                         deferred_fct;
+        execute_return (library_sm*) >              deferred_fct;
     typedef typename QueueContainerPolicy::
         template In<
             std::pair<deferred_fct,char> >::type    deferred_events_queue_t;
@@ -1275,7 +1275,7 @@ private:
 
         m_events_queue.m_events_queue.push_back(
             ::boost::bind(
-                pf, this, evt,
+                pf, ::boost::placeholders::_1, evt,
                 static_cast<EventSource>(EVENT_SOURCE_MSG_QUEUE)));
     }
     template <class EventType>
@@ -1290,7 +1290,7 @@ private:
         {
             transition_fct to_call = m_events_queue.m_events_queue.front();
             m_events_queue.m_events_queue.pop_front();
-            to_call();
+            to_call(this);
         }
     }
     void execute_queued_events_helper(::boost::mpl::true_ const &)
@@ -1301,7 +1301,7 @@ private:
     {
         transition_fct to_call = m_events_queue.m_events_queue.front();
         m_events_queue.m_events_queue.pop_front();
-        to_call();
+        to_call(this);
     }
     void execute_single_queued_event_helper(::boost::mpl::true_ const &)
     {
@@ -1554,7 +1554,7 @@ private:
         m_deferred_events_queue.m_deferred_events_queue.push_back(
             std::make_pair(
                 ::boost::bind(
-                    pf, this, e, static_cast<EventSource>(EVENT_SOURCE_DIRECT|EVENT_SOURCE_DEFERRED)),
+                    pf, ::boost::placeholders::_1, e, static_cast<EventSource>(EVENT_SOURCE_DIRECT|EVENT_SOURCE_DEFERRED)),
                 static_cast<char>(m_deferred_events_queue.m_cur_seq+1)));
     }
 protected:
@@ -1583,7 +1583,7 @@ protected:
                 m_fsm->m_deferred_events_queue.m_deferred_events_queue.push_back(
                     std::make_pair(
                         ::boost::bind(
-                            pf, m_fsm, boost::any_cast<Event>(m_event), static_cast<::boost::msm::back::EventSource>(::boost::msm::back::EVENT_SOURCE_DIRECT | ::boost::msm::back::EVENT_SOURCE_DEFERRED)),
+                            pf, ::boost::placeholders::_1, boost::any_cast<Event>(m_event), static_cast<::boost::msm::back::EventSource>(::boost::msm::back::EVENT_SOURCE_DIRECT | ::boost::msm::back::EVENT_SOURCE_DEFERRED)),
                         static_cast<char>(m_fsm->m_deferred_events_queue.m_cur_seq + 1)));
             }
         }
@@ -1836,7 +1836,7 @@ public:
                     is_no_message_queue<library_sm>::type::value>());
             if (!(EVENT_SOURCE_DEFERRED & source))
             {
-                handle_defer_helper<library_sm> defer_helper(m_deferred_events_queue);
+                handle_defer_helper<library_sm> defer_helper(m_deferred_events_queue,this);
                 defer_helper.do_handle_deferred(HANDLED_TRUE & handled);
             }
         }
@@ -1846,7 +1846,7 @@ public:
         // default. Handle deferred queue with higher prio than msg queue
         if (!(EVENT_SOURCE_DEFERRED & source))
         {
-            handle_defer_helper<library_sm> defer_helper(m_deferred_events_queue);
+            handle_defer_helper<library_sm> defer_helper(m_deferred_events_queue,this);
             defer_helper.do_handle_deferred(HANDLED_TRUE & handled);
 
             // Handle any new events generated into the queue, but only if
@@ -1878,7 +1878,7 @@ public:
             // event has to be put into the queue
             m_events_queue.m_events_queue.push_back(
                 ::boost::bind(
-                    pf, this, evt,
+                    pf, ::boost::placeholders::_1, evt,
                     static_cast<EventSource>(EVENT_SOURCE_DIRECT | EVENT_SOURCE_MSG_QUEUE)));
 
             return false;
@@ -1935,7 +1935,7 @@ public:
     template <class StateType, class Enable = int>
     struct handle_defer_helper
     {
-        handle_defer_helper(deferred_msg_queue_helper<library_sm>& ){}
+        handle_defer_helper(deferred_msg_queue_helper<library_sm>& ,library_sm* ){}
         void do_handle_deferred(bool)
         {
         }
@@ -1963,8 +1963,8 @@ public:
             }
             char seq_;
         };
-        handle_defer_helper(deferred_msg_queue_helper<library_sm>& a_queue):
-            m_events_queue(a_queue) {}
+        handle_defer_helper(deferred_msg_queue_helper<library_sm>& a_queue,library_sm* fsm):
+            m_events_queue(a_queue),m_fsm(fsm) {}
         void do_handle_deferred(bool new_seq=false)
         {
             // A new sequence is typically started upon initial entry to the
@@ -1994,7 +1994,7 @@ public:
 
                 deferred_fct next = pair.first;
                 m_events_queue.m_deferred_events_queue.pop_front();
-                boost::msm::back::execute_return res = next();
+                boost::msm::back::execute_return res = next(m_fsm);
                 if (res != ::boost::msm::back::HANDLED_FALSE && res != ::boost::msm::back::HANDLED_DEFERRED)
                 {
                     not_only_deferred = true;
@@ -2028,6 +2028,7 @@ public:
 
     private:
         deferred_msg_queue_helper<library_sm>& m_events_queue;
+        library_sm*                            m_fsm;
     };
 
     // handling of eventless transitions
@@ -2829,7 +2830,7 @@ BOOST_PP_REPEAT(BOOST_PP_ADD(BOOST_MSM_VISITOR_ARG_SIZE,1), MSM_VISITOR_ARGS_EXE
         }
         // handle messages which were generated and blocked in the init calls
         // look for deferred events waiting
-        handle_defer_helper<library_sm> defer_helper(m_deferred_events_queue);
+        handle_defer_helper<library_sm> defer_helper(m_deferred_events_queue,this);
         defer_helper.do_handle_deferred(true);
         process_message_queue(this);
      }
@@ -2895,7 +2896,7 @@ BOOST_PP_REPEAT(BOOST_PP_ADD(BOOST_MSM_VISITOR_ARG_SIZE,1), MSM_VISITOR_ARGS_EXE
         {
             transition_fct next = m_events_queue.m_events_queue.front();
             m_events_queue.m_events_queue.pop_front();
-            next();
+            next(this);
         }
     }
     template <class StateType>
